@@ -285,6 +285,25 @@ pub fn run(args: &Args) -> serde_json::Value {
             }
         }
     }
+    // ---- known finding (C03, key rvb-zero-coupling): a graph on which some spin's only bonds have J = 0 makes the
+    // weighted boundary of the RVB region search total 0; pop_index then evaluates 0/0 and gen_bool(NaN) panics.
+    // The witness is replayed on every run; any OTHER failure of C03 is still reported (matching is by key).
+    {
+        let witness = std::panic::catch_unwind(std::panic::AssertUnwindSafe(|| {
+            for seed in 0..5u64 {
+                let spec = IsingSpec { edges: vec![((0, 1), 0.0), ((2, 3), 1.0)], gamma: 0.5, h: 0.0, nvars: 4, cutoff: 4, state: vec![false, true, false, true], hb: false };
+                let mut g = spec.build(TapeRng::new(seed));
+                g.set_run_rvb(true);
+                for _ in 0..300 {
+                    g.timestep(1.0);
+                }
+            }
+        }));
+        if witness.is_err() {
+            oracle_failures.push(json!({"prop": "C03", "key": "rvb-zero-coupling",
+                "what": "RVB-enabled time steps panic on a graph with a zero coupling: edges [((0,1), 0.0), ((2,3), 1.0)], Gamma 0.5, h 0, beta 1, within 300 steps for seeds 0..4 (0/0 boundary weight in the region search -> gen_bool(NaN))"}));
+        }
+    }
     let files = crate::write_shards(&args.out, "Rvb", "Rvb", &coq, if args.thorough { 400 } else { 60 });
     json!({"files": files, "replayed_rvb_sweeps": n_replay_sweeps, "replayed_rvb_timesteps": n_replay_steps,
         "replayed_raw_words": n_replay_words, "replayed_sweep_updates_accepted": n_replay_accepted, "evaluations": n_calls, "distinct_nontrivial": distinct.len(), "histories": n_hist, "rvb_sweeps": n_rvb,
